@@ -81,6 +81,34 @@ theorem C04_session_no_phantom (j a : Nat) (start : K) (prog : List (COp K V)) (
     {y : Nat} {v : V} (hy : InSess prog a y) : Ev.note j (.ret y (.pair k v)) ∉ c.log :=
   scan_session_no_phantom lt P tree progs hkp ht hord hsep ho hp hd hdel j a start prog hprog hns hrun k habs hy
 
+/-- **C04/C02 (a scan is exact on the part of the map nobody adds to or removes from).** If, during
+    the session's interval, no key `≥ start` enters or leaves the map (values may change, keys
+    `< start` may come and go, writers may split, borrow and merge as they like), then the keys the
+    session's `Pair()` calls returned are EXACTLY the stored keys `≥ start` — C02's exactness, under
+    concurrency. (Ascending order and the values: `C04_session_ascending`, `C04_session_sound`.) -/
+theorem C04_session_exact_when_range_stable (j a e : Nat) (start : K) (prog : List (COp K V))
+    (hprog : progs[j]? = some prog) (hns : prog[a]? = some (.ns start))
+    {c : Config K V} {hist : List (Config K V)}
+    (hrun : RunFrom (Config.init P tree progs) (c :: hist))
+    (hae : a < e) (hseg : CurOps prog a e) (hscan : prog[e]? = some .scan)
+    (hshape : ∀ i m, a < i → i < m → m ≤ e → prog[i]? = some .scan → prog[m]? = some .scan →
+      ∃ x, i < x ∧ x < m ∧ prog[x]? = some .pair)
+    (hfalse : Ev.note j (.ret e (.bool false)) ∈ c.log)
+    (hstable : ∀ k, lt k start = false → ∀ d ∈ c :: hist, nsReturned j a d →
+      ((∃ v, (k, v) ∈ d.tree.abs) ↔ (∃ v, (k, v) ∈ c.tree.abs))) (k : K) :
+    (∃ x v, a < x ∧ x < e ∧ Ev.note j (.ret x (.pair k v)) ∈ c.log) ↔
+      (lt k start = false ∧ ∃ v, (k, v) ∈ c.tree.abs) := by
+  constructor
+  · rintro ⟨x, v, hax, hxe, hret⟩
+    have hy : InSess prog a x := ⟨hax, hseg.mono (by omega)⟩
+    have hge := scan_session_ge_start lt P tree progs hkp ht hord hsep ho hp hd hdel j a start prog hprog hns hrun hy hret
+    obtain ⟨d, hdm, hnsd, _, hmem, _⟩ :=
+      scan_session_sound lt P tree progs hkp ht hord hsep ho hp hd hdel j a start prog hprog hns hrun hy hret
+    exact ⟨hge, (hstable k hge d hdm hnsd).1 ⟨v, hmem⟩⟩
+  · rintro ⟨hge, hpres⟩
+    exact scan_session_complete lt P tree progs hkp ht hord hsep ho hp hd hdel j a e start prog hprog hns hrun
+      hae hseg hscan hshape hfalse k hge (fun d hdm hnsd => (hstable k hge d hdm hnsd).2 hpres)
+
 end Full
 
 /-- the session vocabulary is inhabited: in the program `ns 0; scan; pair; pause; scan; pair; scan`
@@ -111,3 +139,4 @@ end Gobptree.Conc
 #print axioms Gobptree.Conc.C04_session_ascending
 #print axioms Gobptree.Conc.C04_session_complete
 #print axioms Gobptree.Conc.C04_session_no_phantom
+#print axioms Gobptree.Conc.C04_session_exact_when_range_stable
